@@ -166,7 +166,38 @@ type runner struct {
 	home string
 }
 
+// run executes the program; a watchdog hit counts only if it repeats on an
+// immediate re-run (directory restored first) with a four times longer limit.
+var lastRetried bool // the directory was restored for a watchdog re-run: inodes/mtimes of the first snapshot are stale
+
 func (r runner) run(dir string, c litterCase, env []string, extraArgs ...string) run.CLIRes {
+	lastRetried = false
+	res := r.runOnce(dir, c, 30*time.Second, env, extraArgs...)
+	if res.TimedOut {
+		lastRetried = true
+		fw.AddExtra("watchdog_retries", 1)
+		ents, _ := os.ReadDir(dir)
+		keep := map[string][]byte{}
+		for _, e := range ents {
+			if _, isTable := c.Tables[e.Name()]; !isTable && strings.HasPrefix(e.Name(), ".") && len(c.LockOn) > 0 && strings.HasPrefix(e.Name(), "."+c.LockOn) {
+				keep[e.Name()] = nil
+			}
+			_ = os.Remove(filepath.Join(dir, e.Name()))
+		}
+		_ = run.WriteFiles(dir, c.Tables)
+		old := time.Now().Add(-time.Hour)
+		for n := range c.Tables {
+			_ = os.Chtimes(filepath.Join(dir, n), old, old)
+		}
+		for n := range keep {
+			_ = os.WriteFile(filepath.Join(dir, n), nil, 0600)
+		}
+		res = r.runOnce(dir, c, 120*time.Second, env, extraArgs...)
+	}
+	return res
+}
+
+func (r runner) runOnce(dir string, c litterCase, to time.Duration, env []string, extraArgs ...string) run.CLIRes {
 	src := filepath.Join(r.home, fmt.Sprintf("prog-%d.sql", atomic.AddInt64(&seq, 1)))
 	_ = os.WriteFile(src, []byte(strings.Join(c.Stmts, ";\n")+";\n"), 0644)
 	defer os.Remove(src)
@@ -175,7 +206,7 @@ func (r runner) run(dir string, c litterCase, env []string, extraArgs ...string)
 		args = append(args, "--out", filepath.Join(dir, "result.out"))
 	}
 	args = append(args, extraArgs...)
-	return run.CLI(run.CLIOpt{Bin: r.bin, Dir: dir, Home: r.home, Args: args, Env: env, Timeout: 30 * time.Second})
+	return run.CLI(run.CLIOpt{Bin: r.bin, Dir: dir, Home: r.home, Args: args, Env: env, Timeout: to})
 }
 
 func setup(c litterCase, tag string) string {
@@ -226,7 +257,7 @@ func verdict(c litterCase, dir string, before map[string]fileID, committed map[s
 	if c.ReadOnly {
 		for n, b := range before {
 			a, ok := after[n]
-			if !ok || a.bytes != b.bytes || a.ino != b.ino || !a.mtime.Equal(b.mtime) {
+			if !ok || a.bytes != b.bytes || (!lastRetried && (a.ino != b.ino || !a.mtime.Equal(b.mtime))) {
 				return fw.V("read_only_program_modified_file:"+what, "%s: read-only program changed %s (bytes equal: %v, inode %d->%d, mtime %v->%v)", what, n, ok && a.bytes == b.bytes, b.ino, a.ino, b.mtime, a.mtime)
 			}
 		}
